@@ -26,15 +26,15 @@ KINDS = {
     "quic_split": ("quic", {"suite": 0x1301, "coalesce": "ini+hs", "ch_split": {"cuts": (100,), "order": (1, 0), "packets": True},
                             "script": [("c", [(0, 25)]), ("s", [(0, 35)])]}),
 }
-RELATIONS = ["different_hosts", "same_hosts_diff_cport", "same_client_two_servers", "same_server_443_44330", "v4_v6"]
+RELATIONS = ["different_hosts", "same_hosts_diff_cport", "same_client_two_servers", "same_server_443_44330", "v4_v6", "crossed_hosts"]
 CID_RELATIONS = ["distinct", "both_clients_zero", "server_cid_prefix", "client_cid_prefix", "both_zero_zero"]
 
 
 def describe(tier):
     q = tier == "quick"
     return {
-        "rule": "all unordered pairs (incl. same kind) of {TLS1.2, TLS1.3, TLS1.0-CBC, QUIC-GCM, QUIC-ChaCha, QUIC with the ClientHello split over two reordered Initials, SSL3-RC4, QUIC with large packet numbers} x 5 endpoint "
-                "relations (x 5 CID relations for QUIC pairs); every order-preserving merge with <= "
+        "rule": "all unordered pairs (incl. same kind) of {TLS1.2, TLS1.3, TLS1.0-CBC, QUIC-GCM, QUIC-ChaCha, QUIC with the ClientHello split over two reordered Initials, SSL3-RC4, QUIC with large packet numbers} x 6 endpoint "
+                "relations (incl. crossed hosts) (x 5 CID relations for QUIC pairs); every order-preserving merge with <= "
                 + ("3 context switches" if q else "5 context switches, and ALL merges for the pairs of the two shortest flows") +
                 "; triples and one 4-set with unrelated traffic (DNS-like UDP, HTTP on 80, ARP) with <= "
                 + ("1" if q else "2") + " switch(es) per pair of neighbours; key-log line permutations on one schedule "
@@ -66,6 +66,9 @@ def make_flows(ka, kb, rel, cidrel, seed):
             e.update(server_ip="192.0.12.80", server_port=44330, client_ip="10.11.0.2")
         if rel == "v4_v6" and idx == 1:
             e.update(v6=True)
+        if rel == "crossed_hosts" and idx == 1:
+            # the two hosts talk to each other in both roles with the same port numbers: A:p -> B:443 and B:p -> A:443
+            e.update(client_ip="192.0.12.80", server_ip="10.11.0.2", client_port=40000 + 17 * 10 + 1)
         if kind == "quic" and "ch_split" in scn and idx == 1:
             scn["offered"] = [scn["suite"], 0x1302, 0x1303, 0x1304]     # ClientHellos of different lengths, same split offset
         if kind == "quic" and cidrel != "distinct":
@@ -111,6 +114,8 @@ def cases(tier, seed):
                 if "quic_split" in (ka, kb) and rel not in ("different_hosts", "same_hosts_diff_cport"):
                     continue
                 if ("ssl3_rc4" in (ka, kb) or "quic_bigpn" in (ka, kb)) and rel != "different_hosts":
+                    continue
+                if rel == "crossed_hosts" and (ka != kb or ka in ("tls13", "quic_chacha", "quic_split")):
                     continue
                 cidrels = CID_RELATIONS if (both_quic and "quic_split" not in (ka, kb) and "quic_bigpn" not in (ka, kb) and rel in ("different_hosts", "same_hosts_diff_cport")) else ["distinct"]
                 for cr in cidrels:
